@@ -208,6 +208,39 @@ def check_reset_shapes(repo):
            "t.reset();self.instances.push(t)")
     expect(a_raw, r"fn\s+get_instance\s*\(\s*&mut\s+self\s*\)\s*->\s*T\s*\{", "Allocator::get_instance",
            'matchself.instances.pop(){None=>{ifself.gen_more{T::default()}else{panic!("Outofinstances.")}}Some(t)=>t,}')
+    # the forwarding impls of fast_op_alloc.rs: DefaultFastOpAllocator -> its nine fields, and the public wrapper
+    # SwitchableFastOpAllocator -> the wrapped allocator (unconditionally; or fresh/dropped when there is none)
+    f_raw = squash(strip_comments(open(os.path.join(repo, "src", "sse", "fast_op_alloc.rs")).read()))
+
+    def bodies(header_re):
+        out = []
+        for m in re.finditer(header_re, f_raw):
+            i = m.end() - 1
+            depth = 0
+            for j in range(i, len(f_raw)):
+                if f_raw[j] == "{":
+                    depth += 1
+                elif f_raw[j] == "}":
+                    depth -= 1
+                    if depth == 0:
+                        out.append(f_raw[i + 1 : j])
+                        break
+        return out
+
+    rets = bodies(r"fnreturn_instance\(&mutself,t:[^{]*\)\{")
+    gets = bodies(r"fnget_instance\(&mutself\)->[^{]*\{")
+    want_sw_ret = "ifletSome(a)=self.alloc.as_mut(){a.return_instance(t)}"
+    want_sw_get = "self.alloc.as_mut().map(|a|a.get_instance()).unwrap_or_else(Default::default)"
+    d_ret = [b for b in rets if re.fullmatch(r"self\.\w+_alloc\.return_instance\(t\)", b)]
+    d_get = [b for b in gets if re.fullmatch(r"self\.\w+_alloc\.get_instance\(\)", b)]
+    other_ret = [b for b in rets if b not in d_ret and b != want_sw_ret]
+    other_get = [b for b in gets if b not in d_get and b != want_sw_get]
+    if other_ret:
+        bad.append(("SwitchableFastOpAllocator/DefaultFastOpAllocator::return_instance", "body `%s` is neither `self.<field>.return_instance(t)` nor `%s` (a buffer that is not forwarded unconditionally is lost to the bounded pool)" % (other_ret[0], want_sw_ret)))
+    if other_get:
+        bad.append(("SwitchableFastOpAllocator/DefaultFastOpAllocator::get_instance", "body `%s` is neither `self.<field>.get_instance()` nor `%s`" % (other_get[0], want_sw_get)))
+    if len(set(d_ret)) != 9 or len(set(d_get)) != 9 or len(rets) != 18 or len(gets) != 18:
+        bad.append(("fast_op_alloc.rs Factory impls", "expected 9 + 9 forwarding get_instance and return_instance bodies (one per field, one per wrapper impl), found get %d (%d distinct field forwards) / return %d (%d)" % (len(gets), len(set(d_get)), len(rets), len(set(d_ret)))))
     return bad
 
 
@@ -281,7 +314,7 @@ def main():
         for fn, msg in shape_bad:
             print("extract_pool: RESET-SHAPE FAIL %s: %s" % (fn, msg))
         return 3
-    print("extract_pool: reset shapes ok (Reset for Vec/BinaryHeap/BondContainer, BondContainer::clear, Allocator::{get,return}_instance)")
+    print("extract_pool: reset shapes ok (Reset for Vec/BinaryHeap/BondContainer, BondContainer::clear, Allocator::{get,return}_instance, 18+18 forwarding Factory impls of fast_op_alloc.rs)")
     return 0
 
 
